@@ -22,14 +22,13 @@ Part 3  ROUND TRIP (spec level, machine-checked): `printed_form_denotes_the_node
         fragment kind incl. all sugar; `roundtrip_node`; `printed_name_selects_one_arm` (names pairwise different: c19_ord's frag_names_distinct);
         `wrapper_letters_agree`.
 
-RED on the unchanged tree (genuine, reproduced against the crate; kept):
-    c10_notation.Miniscript::from_tree_name_known.reads_the_printed_name.RawPkH    the printer writes a bare key-hash fragment as `expr_raw_pk_h(H)`; the
-        reader has no such arm ("unrecognized name 'expr_raw_pk_h'")
-    c10_notation.Miniscript::from_tree_step__ExprRawPkh.builds_what_the_name_denotes   the printer writes c:<key hash> as `expr_raw_pkh(H)` (after the
-        pattern pk_h / pkh); the reader's arm "expr_raw_pkh" builds the BARE key-hash fragment (type K, no c:)
-  input: Miniscript::<PublicKey, Segwitv0>::from_str_with_validation_params("c:expr_raw_pkh(H)", allow_raw_pkh) is Ok(ms); ms.to_string() ==
-  "expr_raw_pkh(H)"; parsing that: Err("script has type K, which is not allowed for a top-level Miniscript").  Same for every script decoded from
-  DUP HASH160 <H> EQUALVERIFY CHECKSIG.  "c:and_v(v:pk(K),expr_raw_pkh(H))" parses, prints as "c:and_v(v:pk(K),expr_raw_pk_h(H))", which does not parse.
+FOUND by this unit (fixed in /repo 832b3f4e; the clauses below are red again when that commit is reverted):
+    the printer wrote a bare key-hash fragment as `expr_raw_pk_h(H)` (a name the reader does not know) and c:<key hash> as `expr_raw_pkh(H)` (after the pattern
+    pk_h / pkh), which the reader's arm "expr_raw_pkh" reads as the BARE fragment (type K).  Miniscript::<PublicKey, Segwitv0>::from_str_with_validation_params(
+    "c:expr_raw_pkh(H)", allow_raw_pkh) was Ok(ms) with ms.to_string() == "expr_raw_pkh(H)", whose parse is Err("script has type K, which is not allowed for a
+    top-level Miniscript"); "c:and_v(v:pk(K),expr_raw_pkh(H))" parsed and printed as "c:and_v(v:pk(K),expr_raw_pk_h(H))", which did not parse.  The reader's
+    reading is the one the crate's tests pin, so the oracle (c19_ord FRAGS / frag / display_children, `denote` here) says: expr_raw_pkh(H) = bare RawPkH, no sugar.
+    With the old printer: Terminal::fragment_name.is_notation_name_with_sugar and DisplayNode::as_node.children_are_the_notation_arguments_in_order fail.
 
 NOT decided here (the rest of C10's text round trip for miniscripts): `expression::Tree::from_str` turns the printed punctuation back into the tree
 (node name = letters + ':' + NAME, children = the arguments in order; assumed shape: wf_tree / wf_chain); Display <-> FromStr of keys, hashes, numbers
@@ -448,8 +447,8 @@ def denote_oracle():
     for v in HASHES:
         row(v, leaf(v, "Payload::%s(av[0]->%s_0)" % (v, v)))
     row("RawPkH", leaf("RawPkH", "Payload::RawHash(av[0]->RawKeyHash_0)"),
-        "not in the specification: the library's notation for a key given by its hash only, read after the pattern pk_h / pkh: expr_raw_pk_h(HASH), expr_raw_pkh(HASH) = c:expr_raw_pk_h(HASH)")
-    row("ExprRawPkh", "anode1(%d, %s)" % (V["Check"], leaf("RawPkH", "Payload::RawHash(av[0]->RawKeyHash_0)")))
+        "not in the specification: the library's notation for a key given by its hash only: expr_raw_pkh(HASH) is the BARE fragment (type K, like pk_h); it has no sugar, "
+        "c: over it is written as an ordinary wrapper (reading pinned by the crate's own tests: `c:expr_raw_pkh(H)` is Check(RawPkH))")
     for i, v in enumerate(UNARY_W):
         row(v, "anode1(%d, %s)" % (V[v], X(0)), "wrappers  a:X s:X c:X d:X v:X j:X n:X" if i == 0 else None)
     row("Pk", "anode1(%d, %s)" % (V["Check"], leaf("PkK", "Payload::Key(av[0]->Key_0)")), "pk(KEY) = c:pk_k(KEY)   pkh(KEY) = c:pk_h(KEY)")
@@ -536,8 +535,7 @@ def roundtrip_lemmas():
     D2 = "reveal_with_fuel(atree, 2); "
     cases.append(("Pk", "x: " + MS, "x.node is PkK", "Terminal::Check(x)", ["ADisp::<Pk, Ctx>::Key(x.node->PkK_0)"], D2 + "assert(atree(x.node).kids =~= Seq::empty());"))
     cases.append(("Pkh", "x: " + MS, "x.node is PkH", "Terminal::Check(x)", ["ADisp::<Pk, Ctx>::Key(x.node->PkH_0)"], D2 + "assert(atree(x.node).kids =~= Seq::empty());"))
-    cases.append(("ExprRawPkh", "x: " + MS, "x.node is RawPkH", "Terminal::Check(x)", ["ADisp::<Pk, Ctx>::RawKeyHash(x.node->RawPkH_0)"], D2 + "assert(atree(x.node).kids =~= Seq::empty());"))
-    cases.append(("Check", "x: " + MS, "!(x.node is PkK) && !(x.node is PkH) && !(x.node is RawPkH)", "Terminal::Check(x)", [N("x")], ""))
+    cases.append(("Check", "x: " + MS, "!(x.node is PkK) && !(x.node is PkH)", "Terminal::Check(x)", [N("x")], ""))
     XY = "x: %s, y: %s" % (MS, MS)
     cases.append(("T", XY, "y.node is True", "Terminal::AndV(x, y)", [N("x")], D2 + "assert(atree(y.node).kids =~= Seq::empty());"))
     cases.append(("AndV", XY, "!(y.node is True)", "Terminal::AndV(x, y)", [N("x"), N("y")], ""))
@@ -589,7 +587,7 @@ proof fn printed_form_denotes_the_node<Pk: MiniscriptKey, Ctx: ScriptContext>(t:
         Terminal::Ripemd160(p) => printed_Ripemd160::<Pk, Ctx>(p), Terminal::Hash160(p) => printed_Hash160::<Pk, Ctx>(p),
         Terminal::Alt(x) => printed_Alt(x), Terminal::Swap(x) => printed_Swap(x), Terminal::DupIf(x) => printed_DupIf(x), Terminal::Verify(x) => printed_Verify(x),
         Terminal::NonZero(x) => printed_NonZero(x), Terminal::ZeroNotEqual(x) => printed_ZeroNotEqual(x),
-        Terminal::Check(x) => { if frag(t) is Pk { printed_Pk(x) } else if frag(t) is Pkh { printed_Pkh(x) } else if frag(t) is ExprRawPkh { printed_ExprRawPkh(x) } else { printed_Check(x) } },
+        Terminal::Check(x) => { if frag(t) is Pk { printed_Pk(x) } else if frag(t) is Pkh { printed_Pkh(x) } else { printed_Check(x) } },
         Terminal::AndV(x, y) => { if frag(t) is T { printed_T(x, y) } else { printed_AndV(x, y) } },
         Terminal::AndB(x, y) => printed_AndB(x, y), Terminal::OrB(x, y) => printed_OrB(x, y), Terminal::OrD(x, y) => printed_OrD(x, y), Terminal::OrC(x, y) => printed_OrC(x, y),
         Terminal::OrI(x, y) => { if frag(t) is U { printed_U(x, y) } else if frag(t) is L { printed_L(x, y) } else { printed_OrI(x, y) } },
@@ -785,7 +783,7 @@ spec fn tree_aargs<Pk: MiniscriptKey>(ns: Seq<TreeNode>, i: int, st: Seq<ATree<P
     let top = st.len() - 1;
     match f {
         Frag::PkK | Frag::PkH | Frag::Pk | Frag::Pkh => seq![AArg::Key(spec_from_str::<Pk>(leaf_str(ns, i))->Some_0)],
-        Frag::RawPkH | Frag::ExprRawPkh => seq![AArg::<Pk>::RawKeyHash(spec_from_str::<hash160::Hash>(leaf_str(ns, i))->Some_0)],
+        Frag::RawPkH => seq![AArg::<Pk>::RawKeyHash(spec_from_str::<hash160::Hash>(leaf_str(ns, i))->Some_0)],
         Frag::After => seq![AArg::<Pk>::After(spec_abs_from_consensus(spec_parse_num(leaf_str(ns, i))->Ok_0)->Some_0)],
         Frag::Older => seq![AArg::<Pk>::Older(spec_rel_from_consensus(spec_parse_num(leaf_str(ns, i))->Ok_0)->Some_0)],
         Frag::Sha256 => seq![AArg::<Pk>::Sha256(spec_from_str::<Pk::Sha256>(leaf_str(ns, i))->Some_0)],
